@@ -1,5 +1,10 @@
-(* Capstone corollaries for C14 (three exemplars): the statement "the returned gradient is the derivative of the RETURNED distance" about the
-   TRANSLATED SOURCE of euclidean_grad, manhattan_grad and canberra_grad (regenerated from the current umap/distances.py on every run). *)
+(* Capstone corollaries for C14: the statement "the returned gradient is the derivative of the RETURNED distance" about the
+   TRANSLATED SOURCE (regenerated from the current umap/distances.py on every run) of 16 of the registered *_grad functions:
+   euclidean, manhattan, chebyshev, minkowski, weighted_minkowski, standardised_euclidean, mahalanobis, cosine, correlation,
+   canberra, bray_curtis, hellinger, hyperboloid, haversine, spherical / diagonal Gaussian energy.  Each is the P_C14 theorem of
+   the function (coq/prop/P_C14.v, about the model) carried over with the link theorem src_<f>_grad_eq of L_grads.v.
+   Not here: symmetric_kl_grad (linked, but P_C14 REFUTES it: C14_symmetric_kl_grad_refuted) and gaussian_energy_grad (not linked,
+   refuted: C14_gaussian_energy_grad_refuted). *)
 From Coq Require Import List ZArith Reals Lra.
 From Coquelicot Require Import Coquelicot.
 From UV Require Import Num PyPrim M_grads T_grads T_grads2 T_grads3 P_C14.
@@ -35,4 +40,278 @@ Proof.
   split; [|exact H2].
   apply (derive_transfer _ (fun t => manh (set_nth x i t) y)); [|exact H1].
   intros t. rewrite (src_manhattan_grad_eq RNum (set_nth x i t) y) by (rewrite set_nth_length; exact L). reflexivity.
+Qed.
+
+(* ---- the remaining linked gradient functions.  Shape of every corollary below: under the hypotheses of the P_C14 theorem
+   (its [(i < length y)] is replaced by the link theorem's [length x = length y] where it is not there already, plus the link
+   theorem's other shape hypotheses), the translated source returns (the distance the P_C14 theorem speaks about, its partial
+   derivatives times the P_C14 regulariser factor):
+     fst (src_f_grad x y) = dist x y,  is_derive (fun t => fst (src_f_grad (x with x_i := t) y)) x_i g,  (snd (src_f_grad x y))_i = g * factor. ---- *)
+Lemma lt_len_eq (x y : list R) i : (i < length x)%nat -> length x = length y -> (i < length y)%nat.
+Proof. intros H L. rewrite <- L. exact H. Qed.
+
+(* [E]: src = model at (x, y); [Et]: the same at (x with x_i := t, y); [H]: the P_C14 conclusion *)
+Ltac cap_finish E Et H dist :=
+  cbv zeta in H; destruct H as [H1 H2]; rewrite E;
+  split; [reflexivity|]; split; [|exact H2];
+  apply (derive_transfer _ dist); [|exact H1];
+  let t := fresh "t" in intros t; rewrite Et; reflexivity.
+
+Corollary C14_src_chebyshev_grad : forall x y m i, (m < length x)%nat -> (i < length x)%nat -> length x = length y ->
+  nth m x 0 <> nth m y 0 ->
+  (forall j, (j < length x)%nat -> j <> m -> Rabs (nth j x 0 - nth j y 0) < Rabs (nth m x 0 - nth m y 0)) ->
+  let g := if Nat.eqb i m then sign (nth m x 0 - nth m y 0) else 0 in
+  fst (src_chebyshev_grad RNum x y) = cheb x y /\
+  is_derive (fun t => fst (src_chebyshev_grad RNum (set_nth x i t) y)) (nth i x 0) g /\
+  nth i (snd (src_chebyshev_grad RNum x y)) 0 = g.
+Proof.
+  intros x y m i Hm Hi L Hne Hmax g.
+  pose proof (C14_chebyshev_grad_derive x y m i Hm Hi L Hne Hmax) as H.
+  assert (Et : forall t, src_chebyshev_grad RNum (set_nth x i t) y = chebyshev_grad RNum (set_nth x i t) y)
+    by (intros t; apply src_chebyshev_grad_eq; rewrite set_nth_length; exact L).
+  cap_finish (src_chebyshev_grad_eq RNum x y L) Et H (fun t => cheb (set_nth x i t) y).
+Qed.
+
+Corollary C14_src_minkowski_grad : forall x y p i, (i < length x)%nat -> length x = length y ->
+  0 < p -> nth i x 0 <> nth i y 0 ->
+  let result := Ssum (Fpw p) x y in
+  let g := Rpower (Rabs (nth i x 0 - nth i y 0)) (p - 1) * sign (nth i x 0 - nth i y 0) * Rpower result (1 / p - 1) in
+  let Rp := Rpower result (1 - 1 / p) in
+  fst (src_minkowski_grad RNum x y p) = mink x y p /\
+  is_derive (fun t => fst (src_minkowski_grad RNum (set_nth x i t) y p)) (nth i x 0) g /\
+  nth i (snd (src_minkowski_grad RNum x y p)) 0 = g * (Rp / (Rp + Reps6)).
+Proof.
+  intros x y p i Hi L Hp Hne result g Rp.
+  pose proof (C14_minkowski_grad_derive x y p i Hi (lt_len_eq x y i Hi L) Hp Hne) as H.
+  assert (Et : forall t, src_minkowski_grad RNum (set_nth x i t) y p = minkowski_grad RNum (set_nth x i t) y p)
+    by (intros t; apply (src_minkowski_grad_eq RNum NumLit_RNum); rewrite set_nth_length; exact L).
+  cap_finish (src_minkowski_grad_eq RNum NumLit_RNum x y p L) Et H (fun t => mink (set_nth x i t) y p).
+Qed.
+
+Corollary C14_src_weighted_minkowski_grad : forall x y w p i, (i < length x)%nat -> length x = length y ->
+  length y = length w -> List.Forall (fun v => 0 <= v) w -> 0 < nth i w 0 ->
+  0 < p -> nth i x 0 <> nth i y 0 ->
+  let result := Ssum (Fpw_w p) x (combine y w) in
+  let g := nth i w 0 * Rpower (Rabs (nth i x 0 - nth i y 0)) (p - 1) * sign (nth i x 0 - nth i y 0) * Rpower result (1 / p - 1) in
+  let Rp := Rpower result (1 - 1 / p) in
+  fst (src_weighted_minkowski_grad RNum x y w p) = wmink x y w p /\
+  is_derive (fun t => fst (src_weighted_minkowski_grad RNum (set_nth x i t) y w p)) (nth i x 0) g /\
+  nth i (snd (src_weighted_minkowski_grad RNum x y w p)) 0 = g * (Rp / (Rp + Reps6)).
+Proof.
+  intros x y w p i Hi L Lw Hw Hwi Hp Hne result g Rp.
+  pose proof (C14_weighted_minkowski_grad_derive x y w p i Hi (lt_len_eq x y i Hi L) Lw Hw Hwi Hp Hne) as H.
+  assert (L2 : length x = length w) by (rewrite L; exact Lw).
+  assert (Et : forall t, src_weighted_minkowski_grad RNum (set_nth x i t) y w p = weighted_minkowski_grad RNum (set_nth x i t) y w p)
+    by (intros t; apply (src_weighted_minkowski_grad_eq RNum NumLit_RNum); rewrite set_nth_length; assumption).
+  cap_finish (src_weighted_minkowski_grad_eq RNum NumLit_RNum x y w p L L2) Et H (fun t => wmink (set_nth x i t) y w p).
+Qed.
+
+Corollary C14_src_standardised_euclidean_grad : forall x y sg i, (i < length x)%nat -> length x = length y ->
+  length y = length sg -> 0 < nth i sg 0 -> 0 < seuclid x y sg ->
+  let d := seuclid x y sg in
+  fst (src_standardised_euclidean_grad RNum x y sg) = d /\
+  is_derive (fun t => fst (src_standardised_euclidean_grad RNum (set_nth x i t) y sg)) (nth i x 0) ((nth i x 0 - nth i y 0) / (nth i sg 0 * d)) /\
+  nth i (snd (src_standardised_euclidean_grad RNum x y sg)) 0 =
+    (nth i x 0 - nth i y 0) / (nth i sg 0 * d) * (d * nth i sg 0 / (d * nth i sg 0 + Reps6)).
+Proof.
+  intros x y sg i Hi L Ls Hsi Hd d.
+  pose proof (C14_standardised_euclidean_grad_derive x y sg i Hi (lt_len_eq x y i Hi L) Ls Hsi Hd) as H.
+  assert (L2 : length x = length sg) by (rewrite L; exact Ls).
+  assert (Et : forall t, src_standardised_euclidean_grad RNum (set_nth x i t) y sg = standardised_euclidean_grad RNum (set_nth x i t) y sg)
+    by (intros t; apply (src_standardised_euclidean_grad_eq RNum NumLit_RNum); rewrite set_nth_length; assumption).
+  cap_finish (src_standardised_euclidean_grad_eq RNum NumLit_RNum x y sg L L2) Et H (fun t => seuclid (set_nth x i t) y sg).
+Qed.
+
+Corollary C14_src_mahalanobis_grad : forall x y V i, (i < length x)%nat -> length x = length y ->
+  sym_square V (length x) -> 0 < mahal x y V ->
+  let d := mahal x y V in
+  let gi := Ssum Fxy (nth i V []) (vdiff x y) in     (* (V (x - y))_i *)
+  fst (src_mahalanobis_grad RNum x y V) = d /\
+  is_derive (fun t => fst (src_mahalanobis_grad RNum (set_nth x i t) y V)) (nth i x 0) (gi / d) /\
+  nth i (snd (src_mahalanobis_grad RNum x y V)) 0 = gi / d * (d / (d + Reps6)).
+Proof.
+  intros x y V i Hi L HV Hd d gi.
+  pose proof (C14_mahalanobis_grad_derive x y V i Hi L HV Hd) as H.
+  destruct HV as [LV [HR _]].
+  assert (FV : List.Forall (fun row : list R => length row = length x) V).
+  { apply Forall_forall. intros row Hin. destruct (In_nth V row [] Hin) as [j [Hj Hrow]]. rewrite <- Hrow. apply HR. rewrite <- LV. exact Hj. }
+  assert (Et : forall t, src_mahalanobis_grad RNum (set_nth x i t) y V = mahalanobis_grad RNum (set_nth x i t) y V).
+  { intros t. apply (src_mahalanobis_grad_eq RNum NumLit_RNum); rewrite ?set_nth_length; assumption. }
+  cap_finish (src_mahalanobis_grad_eq RNum NumLit_RNum V x y L LV FV) Et H (fun t => mahal (set_nth x i t) y V).
+Qed.
+
+Corollary C14_src_cosine_grad : forall x y i, (i < length x)%nat -> length x = length y ->
+  0 < Ssum Fxx x y -> 0 < Ssum Fyy x y ->
+  let r := Ssum Fxy x y in let nx := Ssum Fxx x y in let ny := Ssum Fyy x y in
+  let g := (nth i x 0 * r - nth i y 0 * nx) / sqrt (nx * nx * nx * ny) in
+  fst (src_cosine_grad RNum x y) = cosd x y /\
+  is_derive (fun t => fst (src_cosine_grad RNum (set_nth x i t) y)) (nth i x 0) g /\
+  nth i (snd (src_cosine_grad RNum x y)) 0 = g.
+Proof.
+  intros x y i Hi L Hx Hy r nx ny g.
+  pose proof (C14_cosine_grad_derive x y i Hi (lt_len_eq x y i Hi L) Hx Hy) as H.
+  assert (Et : forall t, src_cosine_grad RNum (set_nth x i t) y = cosine_grad RNum (set_nth x i t) y)
+    by (intros t; apply src_cosine_grad_eq; rewrite set_nth_length; exact L).
+  cap_finish (src_cosine_grad_eq x y L) Et H (fun t => cosd (set_nth x i t) y).
+Qed.
+
+Corollary C14_src_correlation_grad : forall x y i, (i < length x)%nat -> length x = length y ->
+  0 < c_nx x y -> 0 < c_ny x y -> c_dp x y <> 0 ->
+  let g := ((nth i x 0 - c_mx x y) / c_nx x y - (nth i y 0 - c_my x y) / c_dp x y) * (1 - corr x y) in
+  fst (src_correlation_grad RNum x y) = corr x y /\
+  is_derive (fun t => fst (src_correlation_grad RNum (set_nth x i t) y)) (nth i x 0) g /\
+  nth i (snd (src_correlation_grad RNum x y)) 0 = g.
+Proof.
+  intros x y i Hi L Hx Hy Hd g.
+  pose proof (C14_correlation_grad_derive x y i Hi L Hx Hy Hd) as H.
+  assert (Et : forall t, src_correlation_grad RNum (set_nth x i t) y = correlation_grad RNum (set_nth x i t) y)
+    by (intros t; apply src_correlation_grad_eq; rewrite set_nth_length; exact L).
+  cap_finish (src_correlation_grad_eq RNum x y L) Et H (fun t => corr (set_nth x i t) y).
+Qed.
+
+Corollary C14_src_canberra_grad : forall x y i, (i < length x)%nat -> length x = length y ->
+  nth i x 0 <> nth i y 0 -> nth i x 0 <> 0 ->
+  fst (src_canberra_grad RNum x y) = canb x y /\
+  is_derive (fun t => fst (src_canberra_grad RNum (set_nth x i t) y)) (nth i x 0) (canberra_true (nth i x 0) (nth i y 0)) /\
+  nth i (snd (src_canberra_grad RNum x y)) 0 = canberra_true (nth i x 0) (nth i y 0).
+Proof.
+  intros x y i Hi L Hne Hx0.
+  pose proof (C14_canberra_grad_derive x y i Hi (lt_len_eq x y i Hi L) Hne Hx0) as H.
+  assert (Et : forall t, src_canberra_grad RNum (set_nth x i t) y = canberra_grad RNum (set_nth x i t) y)
+    by (intros t; apply src_canberra_grad_eq; rewrite set_nth_length; exact L).
+  cap_finish (src_canberra_grad_eq x y L) Et H (fun t => canb (set_nth x i t) y).
+Qed.
+
+Corollary C14_src_bray_curtis_grad : forall x y i, (i < length x)%nat -> length x = length y ->
+  nth i x 0 <> nth i y 0 -> nth i x 0 + nth i y 0 <> 0 ->
+  let den := Ssum Fabsp x y in
+  let g := (sign (nth i x 0 - nth i y 0) - bc x y * sign (nth i x 0 + nth i y 0)) / den in
+  fst (src_bray_curtis_grad RNum x y) = bc x y /\
+  is_derive (fun t => fst (src_bray_curtis_grad RNum (set_nth x i t) y)) (nth i x 0) g /\
+  nth i (snd (src_bray_curtis_grad RNum x y)) 0 = g.
+Proof.
+  intros x y i Hi L Hne Hs den g.
+  pose proof (C14_bray_curtis_grad_derive x y i Hi (lt_len_eq x y i Hi L) Hne Hs) as H.
+  assert (Et : forall t, src_bray_curtis_grad RNum (set_nth x i t) y = bray_curtis_grad RNum (set_nth x i t) y)
+    by (intros t; apply src_bray_curtis_grad_eq; rewrite set_nth_length; exact L).
+  cap_finish (src_bray_curtis_grad_eq RNum x y L) Et H (fun t => bc (set_nth x i t) y).
+Qed.
+
+Corollary C14_src_hellinger_grad : forall x y i, (i < length x)%nat -> length x = length y ->
+  0 < nth i x 0 -> 0 < nth i y 0 -> 0 < Ssum Fx x y -> 0 < Ssum Fy x y ->
+  0 < 1 - Ssum Frt x y / sqrt (Ssum Fx x y * Ssum Fy x y) ->
+  let r := Ssum Frt x y in let sx := Ssum Fx x y in let sy := Ssum Fy x y in
+  let dd := sqrt (sx * sy) in
+  let g := (sy * r / (2 * (dd * dd * dd)) - nth i y 0 / (2 * sqrt (nth i x 0 * nth i y 0) * dd)) / (2 * hell x y) in
+  fst (src_hellinger_grad RNum x y) = hell x y /\
+  is_derive (fun t => fst (src_hellinger_grad RNum (set_nth x i t) y)) (nth i x 0) g /\
+  nth i (snd (src_hellinger_grad RNum x y)) 0 = g.
+Proof.
+  intros x y i Hi L Hxi Hyi Hsx Hsy Hpos r sx sy dd g.
+  pose proof (C14_hellinger_grad_derive x y i Hi (lt_len_eq x y i Hi L) Hxi Hyi Hsx Hsy Hpos) as H.
+  assert (Et : forall t, src_hellinger_grad RNum (set_nth x i t) y = hellinger_grad RNum (set_nth x i t) y)
+    by (intros t; apply src_hellinger_grad_eq; rewrite set_nth_length; exact L).
+  cap_finish (src_hellinger_grad_eq x y L) Et H (fun t => hell (set_nth x i t) y).
+Qed.
+
+(* hyperboloid_grad calls np.arccosh: the source gets it in the [PyExt] record ([GPy], [pacosh := arccosh RNum], the model's own);
+   the other record fields are not used by this function, so the corollary holds for every choice of them *)
+Corollary C14_src_hyperboloid_grad : forall nsin ncos nasin npi x y i, (i < length x)%nat -> length x = length y ->
+  1 < hypB0 x y ->
+  let E := GPy RNum nsin ncos nasin npi in
+  let s := sqrt (1 + Ssum Fxx x y) in let t := sqrt (1 + Ssum Fyy x y) in let B := hypB0 x y in
+  let g := (nth i x 0 * t / s - nth i y 0) / (sqrt (B - 1) * sqrt (B + 1)) in
+  fst (src_hyperboloid_grad RNum E x y) = hyp x y /\
+  is_derive (fun u => fst (src_hyperboloid_grad RNum E (set_nth x i u) y)) (nth i x 0) g /\
+  nth i (snd (src_hyperboloid_grad RNum E x y)) 0 = g.
+Proof.
+  intros nsin ncos nasin npi x y i Hi L HB E s t B g. subst E.
+  pose proof (C14_hyperboloid_grad_derive x y i Hi L HB) as H.
+  assert (Et : forall u, src_hyperboloid_grad RNum (GPy RNum nsin ncos nasin npi) (set_nth x i u) y = hyperboloid_grad RNum (set_nth x i u) y)
+    by (intros u; apply (src_hyperboloid_grad_eq RNum NumLit_RNum); rewrite set_nth_length; exact L).
+  cap_finish (src_hyperboloid_grad_eq RNum NumLit_RNum nsin ncos nasin npi x y L) Et H (fun u => hyp (set_nth x i u) y).
+Qed.
+
+(* ---- fixed dimension.  The source gets numpy's sin / cos / arcsin / pi in the [PyExt] record; the P_C14 theorems speak about
+   the real sin, cos, asin, PI, so the record is [GPy RNum sin cos asin PI] where these are used. ---- *)
+
+(* haversine_grad raises ValueError unless len(x) = 2: the translated source returns an option ([Some] = no exception) *)
+Definition oget_fst (r : option (R * list R)) : R := match r with Some p => fst p | None => 0 end.
+
+Corollary C14_src_haversine_grad : forall x0 x1 y0 y1, 0 < hav_a x0 x1 y0 y1 < 1 ->
+  let E := GPy RNum sin cos asin PI in
+  let a := hav_a x0 x1 y0 y1 in
+  let denom := sqrt (Rabs (a - 1)) * sqrt (Rabs a) in
+  let sin_lat := sin (1 / 2 * (x0 - y0)) in let cos_lat := cos (1 / 2 * (x0 - y0)) in
+  let sin_long := sin (1 / 2 * (x1 - y1)) in let cos_long := cos (1 / 2 * (x1 - y1)) in
+  let g0 := (sin_lat * cos_lat - sin (x0 + PI / 2) * cos (y0 + PI / 2) * (sin_long * sin_long)) / denom in
+  let g1 := (cos (x0 + PI / 2) * cos (y0 + PI / 2) * sin_long * cos_long) / denom in
+  src_haversine_grad RNum E [x0; x1] [y0; y1] =
+    Some (hav [x0; x1] [y0; y1], [g0 * (denom / (denom + Reps6)); g1 * (denom / (denom + Reps6))]) /\
+  is_derive (fun t => oget_fst (src_haversine_grad RNum E [t; x1] [y0; y1])) x0 g0 /\
+  is_derive (fun t => oget_fst (src_haversine_grad RNum E [x0; t] [y0; y1])) x1 g1.
+Proof.
+  intros x0 x1 y0 y1 Ha E a denom sin_lat cos_lat sin_long cos_long g0 g1. subst E.
+  pose proof (C14_haversine_grad_derive x0 x1 y0 y1 Ha) as H. cbv zeta in H. destruct H as [H0 [H1 H2]].
+  assert (Et : forall u v, src_haversine_grad RNum (GPy RNum sin cos asin PI) [u; v] [y0; y1] = Some (haversine_grad RNum sin cos asin PI [u; v] [y0; y1]))
+    by (intros u v; rewrite (src_haversine_grad_eq RNum NumLit_RNum sin cos asin PI [u; v] [y0; y1] eq_refl); reflexivity).
+  split; [|split].
+  - rewrite Et. f_equal. apply injective_projections; [reflexivity | exact H2].
+  - apply (derive_transfer _ (fun t => hav [t; x1] [y0; y1])); [|exact H0]. intros t. rewrite Et. reflexivity.
+  - apply (derive_transfer _ (fun t => hav [x0; t] [y0; y1])); [|exact H1]. intros t. rewrite Et. reflexivity.
+Qed.
+
+Corollary C14_src_spherical_gaussian_energy_grad : forall nsin ncos nasin x0 x1 x2 y0 y1 y2, x2 <> 0 ->
+  let E := GPy RNum nsin ncos nasin PI in
+  let sigma := Rabs x2 + Rabs y2 in
+  let m := (x0 - y0) * (x0 - y0) + (x1 - y1) * (x1 - y1) in
+  let g0 := (x0 - y0) / sigma in let g1 := (x1 - y1) / sigma in
+  let g2 := sign x2 * (1 / sigma - m / (2 * (sigma * sigma))) in
+  fst (src_spherical_gaussian_energy_grad RNum E [x0; x1; x2] [y0; y1; y2]) = sge [x0; x1; x2] [y0; y1; y2] /\
+  is_derive (fun t => fst (src_spherical_gaussian_energy_grad RNum E [t; x1; x2] [y0; y1; y2])) x0 g0 /\
+  is_derive (fun t => fst (src_spherical_gaussian_energy_grad RNum E [x0; t; x2] [y0; y1; y2])) x1 g1 /\
+  is_derive (fun t => fst (src_spherical_gaussian_energy_grad RNum E [x0; x1; t] [y0; y1; y2])) x2 g2 /\
+  snd (src_spherical_gaussian_energy_grad RNum E [x0; x1; x2] [y0; y1; y2]) = [g0; g1; g2].
+Proof.
+  intros nsin ncos nasin x0 x1 x2 y0 y1 y2 Hx2 E sigma m g0 g1 g2. subst E.
+  pose proof (C14_spherical_gaussian_energy_grad_derive x0 x1 x2 y0 y1 y2 Hx2) as H. cbv zeta in H. destruct H as [H0 [H1 [H2 H3]]].
+  assert (Et : forall u v w, src_spherical_gaussian_energy_grad RNum (GPy RNum nsin ncos nasin PI) [u; v; w] [y0; y1; y2]
+                             = spherical_gaussian_energy_grad RNum PI [u; v; w] [y0; y1; y2])
+    by (intros u v w; apply (src_spherical_gaussian_energy_grad_eq RNum NumLit_RNum nsin ncos nasin PI u v w y0 y1 y2 [] [])).
+  rewrite Et. split; [reflexivity|]. split; [|split; [|split; [|exact H3]]].
+  - apply (derive_transfer _ (fun t => sge [t; x1; x2] [y0; y1; y2])); [|exact H0]. intros t. rewrite Et. reflexivity.
+  - apply (derive_transfer _ (fun t => sge [x0; t; x2] [y0; y1; y2])); [|exact H1]. intros t. rewrite Et. reflexivity.
+  - apply (derive_transfer _ (fun t => sge [x0; x1; t] [y0; y1; y2])); [|exact H2]. intros t. rewrite Et. reflexivity.
+Qed.
+
+(* diagonal_gaussian_energy_grad returns np.empty(6) with the entries 0..3 assigned: the link theorem (and so this corollary) speaks
+   about the first four entries of the returned array; entries 4, 5 are uninitialised memory in the source *)
+Corollary C14_src_diagonal_gaussian_energy_grad : forall nsin ncos nasin x0 x1 x2 x3 y0 y1 y2 y3, x2 <> 0 -> x3 <> 0 ->
+  let E := GPy RNum nsin ncos nasin PI in
+  let s1 := Rabs x2 + Rabs y2 in let s2 := Rabs x3 + Rabs y3 in
+  let mu1 := x0 - y0 in let mu2 := x1 - y1 in
+  let g0 := mu1 / s1 in let g1 := mu2 / s2 in
+  let g2 := sign x2 * (s1 - mu1 * mu1) / (2 * (s1 * s1)) in
+  let g3 := sign x3 * (s2 - mu2 * mu2) / (2 * (s2 * s2)) in
+  fst (src_diagonal_gaussian_energy_grad RNum E [x0; x1; x2; x3] [y0; y1; y2; y3]) = dge [x0; x1; x2; x3] [y0; y1; y2; y3] /\
+  is_derive (fun t => fst (src_diagonal_gaussian_energy_grad RNum E [t; x1; x2; x3] [y0; y1; y2; y3])) x0 g0 /\
+  is_derive (fun t => fst (src_diagonal_gaussian_energy_grad RNum E [x0; t; x2; x3] [y0; y1; y2; y3])) x1 g1 /\
+  is_derive (fun t => fst (src_diagonal_gaussian_energy_grad RNum E [x0; x1; t; x3] [y0; y1; y2; y3])) x2 g2 /\
+  is_derive (fun t => fst (src_diagonal_gaussian_energy_grad RNum E [x0; x1; x2; t] [y0; y1; y2; y3])) x3 g3 /\
+  firstn 4 (snd (src_diagonal_gaussian_energy_grad RNum E [x0; x1; x2; x3] [y0; y1; y2; y3])) = [g0; g1; g2; g3].
+Proof.
+  intros nsin ncos nasin x0 x1 x2 x3 y0 y1 y2 y3 Hx2 Hx3 E s1 s2 mu1 mu2 g0 g1 g2 g3. subst E.
+  pose proof (C14_diagonal_gaussian_energy_grad_derive x0 x1 x2 x3 y0 y1 y2 y3 Hx2 Hx3) as H. cbv zeta in H.
+  destruct H as [H0 [H1 [H2 [H3 H4]]]].
+  pose proof (fun u v w z => src_diagonal_gaussian_energy_grad_eq RNum NumLit_RNum nsin ncos nasin PI u v w z y0 y1 y2 y3 [] []) as Ep.
+  cbv zeta in Ep.
+  assert (Et : forall u v w z, fst (src_diagonal_gaussian_energy_grad RNum (GPy RNum nsin ncos nasin PI) [u; v; w; z] [y0; y1; y2; y3])
+                               = dge [u; v; w; z] [y0; y1; y2; y3])
+    by (intros u v w z; exact (f_equal fst (Ep u v w z))).
+  split; [apply Et|]. split; [|split; [|split; [|split]]].
+  - apply (derive_transfer _ (fun t => dge [t; x1; x2; x3] [y0; y1; y2; y3])); [|exact H0]. intros t. apply Et.
+  - apply (derive_transfer _ (fun t => dge [x0; t; x2; x3] [y0; y1; y2; y3])); [|exact H1]. intros t. apply Et.
+  - apply (derive_transfer _ (fun t => dge [x0; x1; t; x3] [y0; y1; y2; y3])); [|exact H2]. intros t. apply Et.
+  - apply (derive_transfer _ (fun t => dge [x0; x1; x2; t] [y0; y1; y2; y3])); [|exact H3]. intros t. apply Et.
+  - etransitivity; [exact (f_equal snd (Ep x0 x1 x2 x3)) | exact H4].
 Qed.
